@@ -31,6 +31,9 @@ type Scenario struct {
 	OutputFile   string
 	Plugins      []*Script
 	PluginAPI    bool // --generate-plugin-api
+	// APICrossParent: --generate-plugin-api on a program with a service whose parent lives in another
+	// module, which the built-in generator (today) cannot render: the run may fail or not
+	APICrossParent bool
 	SymlinkRoot  bool // the directory holding the Thrift files is reached through a symbolic link
 	PkgPrefix    string // --pkg-prefix as written on the command line (not necessarily in canonical form)
 	RelPaths     int  // 0: absolute paths on the command line; 1: relative to the sandbox; 2: relative to the directory of the Thrift file
@@ -213,9 +216,17 @@ func genScenario(o world.Opts) *Scenario {
 		for _, f := range sc.Prog.Files {
 			for _, d := range f.Defs {
 				if d.Kind == progen.KService && d.Parent != nil && d.Parent.File != d.File {
-					sc.PluginAPI = false
+					// C17 keeps the flag and demands only what holds whether or not the
+					// built-in generator can render the program (see checkC17)
+					sc.APICrossParent = true
+					if o.Prop != "C17" {
+						sc.PluginAPI = false
+					}
 				}
 			}
+		}
+		if !sc.PluginAPI {
+			sc.APICrossParent = false
 		}
 	}
 	np := simrt.ChoiceBias("plugins.n", 4, 0.1)
